@@ -21,6 +21,8 @@ class Cls:
   class Inner:
     def __init__(self, x=0):
       self.x = x
+    def im(self, x=0):
+      return x
 '''
 SUBMOD_SRC = '''
 def fn(x=0, y=0):
@@ -99,8 +101,9 @@ class Case:
         else:
           lines.append('from %s import %s' % ('.'.join(mod[:-1]), mod[-1]) + (' as ' + s['alias'] if s['alias'] else ''))
       else:
-        sel = '.'.join(self.name(c) for c in s['sel'])
-        val = repr(s['val']) if not s['ref'] else '@' + '.'.join(self.name(c) for c in s['ref']) + '()'
+        sel = (s.get('scope', '') + '/' if s.get('scope') else '') + '.'.join(self.name(c) for c in s['sel'])
+        val = repr(s['val']) if not s['ref'] else ('@' + (s.get('rscope', '') + '/' if s.get('rscope') else '') +
+                                                   '.'.join(self.name(c) for c in s['ref']) + '()')
         lines.append('%s.%s = %s' % (sel, s['param'], val))
     return '\n'.join(lines) + '\n'
 
@@ -109,7 +112,7 @@ class Case:
     out = {}
     m = sys.modules.get(self.pk + '.mod')
     if m is not None:
-      out.update(fn=m.fn, Cls=m.Cls, meth=m.Cls.meth, Inner=m.Cls.Inner)
+      out.update(fn=m.fn, Cls=m.Cls, meth=m.Cls.meth, Inner=m.Cls.Inner, im=m.Cls.Inner.im)
     m5 = sys.modules.get(self.pk + '.sub.mod')
     if m5 is not None:
       out['fn5'] = m5.fn
@@ -118,22 +121,33 @@ class Case:
       out['fn6'] = m6.fn
     return out
 
+  SCOPES = ('', 'sc')
+
   def bindings(self):
-    """What is configured, per object (references shown as '@')."""
+    """What is configured, per (scope, object): [scope, object, parameter, value, referenced object, scope on the reference]."""
     gin, config = self.gin, self.config
+    objs = self.objects()
     got = []
-    for oid, obj in self.objects().items():
-      try:
-        b = gin.get_bindings(obj, resolve_references=False)
-      except ValueError:
-        continue
-      for p, v in b.items():
-        got.append([oid, p, '@' if isinstance(v, config.ConfigurableReference) else
-                    ('unk' if isinstance(v, config._UnknownConfigurableReference) else v)])
+    for scope in self.SCOPES:
+      for oid, obj in objs.items():
+        try:
+          with gin.config_scope(scope or None):
+            b = gin.get_bindings(obj, resolve_references=False, inherit_scopes=False)
+        except ValueError:
+          continue
+        for p, v in b.items():
+          if isinstance(v, config.ConfigurableReference):
+            target = [k for k, o in objs.items() if o is v.configurable.wrapped]
+            got.append([scope, oid, p, '@', target[0] if target else '?', '/'.join(v.scopes)])
+          elif isinstance(v, config._UnknownConfigurableReference):
+            got.append([scope, oid, p, 'unk', 'none', ''])
+          else:
+            got.append([scope, oid, p, v, 'none', ''])
     return sorted(got)
 
   def behaviour(self):
-    """Observable behaviour through references: fn's y is a Cls instance configured like Cls / Cls.meth."""
+    """Observable behaviour through references: fn's y is an instance of the referenced class, built under the scope
+    written on the reference, whose methods are configured as bound."""
     gin = self.gin
     objs = self.objects()
     out = {}
@@ -142,10 +156,10 @@ class Case:
         r = gin.get_configurable(objs['fn'])()
         out['fn.x'] = r[1]
         y = r[2]
-        if hasattr(y, 'meth'):
+        if hasattr(y, 'x') and not isinstance(y, (int, str)):
           out['fn.y.x'] = y.x
-          out['fn.y.meth()'] = y.meth()
-          out['fn.y is Cls'] = isinstance(y, objs['Cls'])
+          out['fn.y class'] = 'Inner' if isinstance(y, objs['Inner']) else ('Cls' if isinstance(y, objs['Cls']) else type(y).__name__)
+          out['fn.y.method()'] = y.im() if isinstance(y, objs['Inner']) else y.meth()
       except ValueError:
         pass
     return out
@@ -172,14 +186,20 @@ class Case:
 
 
 def expected_behaviour(cfg):
-  d = {(o, p): v for o, p, v in cfg}
+  """cfg: [scope, object, parameter, value, referenced object, scope on the reference] (root-scope view of fn)."""
+  d = {(sc, o, p): (v, ref, rsc) for sc, o, p, v, ref, rsc in cfg}
   out = {}
-  if any(o == 'fn' for o, _, _ in cfg):
-    out['fn.x'] = d.get(('fn', 'x'), 0)
-    if d.get(('fn', 'y')) == '@':
-      out['fn.y.x'] = d.get(('Cls', 'x'), 0)
-      out['fn.y.meth()'] = d.get(('meth', 'x'), 0)
-      out['fn.y is Cls'] = True
+  if any(o == 'fn' and sc == '' for sc, o, _, _, _, _ in cfg):
+    out['fn.x'] = d.get(('', 'fn', 'x'), (0,))[0]
+    y = d.get(('', 'fn', 'y'))
+    if y and y[0] == '@' and y[1] in ('Cls', 'Inner'):
+      cls, rsc = y[1], y[2]
+      # the instance is built under the scope written on the reference: that scope's binding overlays the root's
+      x = d.get((rsc, cls, 'x')) if rsc else None
+      out['fn.y.x'] = (x or d.get(('', cls, 'x'), (0,)))[0]
+      out['fn.y class'] = cls
+      # the method is called by the harness outside any scope
+      out['fn.y.method()'] = d.get(('', 'im' if cls == 'Inner' else 'meth', 'x'), (0,))[0]
   return out
 
 
@@ -196,10 +216,10 @@ def check(case):
       where = [int(n) for n in re.findall(r'line (\d+)', obs.get('fullmsg', ''))]
       if where != [case['at'] + 1]:
         return ('error-location', [case['at'] + 1], [where, obs.get('fullmsg', '')[:300]])
-    want = sorted([b['obj'], b['param'], b['val']] for b in case['cfg'])
+    want = sorted([b.get('scope', ''), b['obj'], b['param'], b['val'], b.get('ref', 'none'), b.get('rscope', '')] for b in case['cfg'])
     if want != obs['cfg']:
       return ('configured-objects', want, obs['cfg'])
-    if case['status'] != 'ok' or any(v == 'unk' for _, _, v in want):
+    if case['status'] != 'ok' or any(b[3] == 'unk' for b in want):
       return None
     # references keep working (also after a class was re-registered because one of its methods was configured)
     wb = expected_behaviour(want)
@@ -213,7 +233,7 @@ def check(case):
     except Exception as e:  # pylint: disable=broad-except
       return ('second-file', 'parses', '%s: %s' % (type(e).__name__, e))
     vfn = sys.modules[c.vend + '.' + c.pk].vfn
-    before = c.bindings() + [['vfn', 'x', gin.get_bindings(vfn)['x']]]
+    before = c.bindings() + [['', 'vfn', 'x', gin.get_bindings(vfn)['x'], 'none', '']]
     try:
       text = gin.config_str()
     except Exception as e:  # pylint: disable=broad-except
@@ -224,7 +244,7 @@ def check(case):
     except Exception as e:  # pylint: disable=broad-except
       return ('config-str-reparses', 'parses', '%s: %s\n%s' % (type(e).__name__, str(e)[:300], text))
     try:
-      after = c.bindings() + [['vfn', 'x', gin.get_bindings(vfn).get('x')]]
+      after = c.bindings() + [['', 'vfn', 'x', gin.get_bindings(vfn).get('x'), 'none', '']]
     except ValueError as e:
       after = 'RAISED %s' % e
     if before != after:
